@@ -1128,14 +1128,14 @@ func (d *dealer) syncYield(callee *wamp.Session, msg *wamp.Yield, progress, canR
 
 		// Every side supports PPT feature. Fill PPT options for callee.
 		details[wamp.OptPPTScheme] = pptScheme
-		if val, ok := msg.Options[wamp.OptPPTSerializer]; ok {
-			details[wamp.OptPPTSerializer] = val.(string)
+		if val, ok := msg.Options[wamp.OptPPTSerializer].(string); ok {
+			details[wamp.OptPPTSerializer] = val
 		}
-		if val, ok := msg.Options[wamp.OptPPTCipher]; ok {
-			details[wamp.OptPPTCipher] = val.(string)
+		if val, ok := msg.Options[wamp.OptPPTCipher].(string); ok {
+			details[wamp.OptPPTCipher] = val
 		}
-		if val, ok := msg.Options[wamp.OptPPTKeyId]; ok {
-			details[wamp.OptPPTKeyId] = val.(string)
+		if val, ok := msg.Options[wamp.OptPPTKeyId].(string); ok {
+			details[wamp.OptPPTKeyId] = val
 		}
 	}
 
